@@ -109,7 +109,7 @@ macro_rules! impl_bit_ops_for_int {
                 if position >= <$T>::BITS as usize {
                     return self < &0;
                 } else {
-                    self & (1 << position) > 0
+                    self & (1 << position) != 0
                 }
             }
         }
